@@ -36,6 +36,7 @@ type fpShape struct {
 	deferCmd  bool   // the task has a deferred shell command that writes a file
 	global    string // top-level method: differing from the task's own
 	broken    bool   // the Taskfile also has a task that cannot be compiled (for over a non-list var)
+	silent    string // "task": the task is silent; "taskfile": the Taskfile is (commands are not echoed)
 }
 
 func (sh fpShape) taskName() string {
@@ -96,6 +97,9 @@ func (sh fpShape) files() map[string]string {
 		if sh.prompt {
 			s += "    prompt: 'sure?'\n"
 		}
+		if sh.silent == "task" {
+			s += "    silent: true\n"
+		}
 		if sh.label {
 			s += "    label: 'the-{{.TASK}}'\n"
 		}
@@ -130,6 +134,9 @@ func (sh fpShape) files() map[string]string {
 			"  prep:\n    method: " + sh.method + "\n    sources: ['{{.ROOT_DIR}}/src/*.txt']\n    cmds:\n      - 'echo start:prep >> {{.ROOT_DIR}}/trace.log'\n      - 'echo done:prep >> {{.ROOT_DIR}}/trace.log'\n"
 	default:
 		files["Taskfile.yml"] = "version: '3'\ntasks:\n" + task("build", "build")
+	}
+	if sh.silent == "taskfile" {
+		files["Taskfile.yml"] = strings.Replace(files["Taskfile.yml"], "version: '3'\n", "version: '3'\nsilent: true\n", 1)
 	}
 	if sh.global != "" {
 		files["Taskfile.yml"] = strings.Replace(files["Taskfile.yml"], "version: '3'\n", "version: '3'\nmethod: "+sh.global+"\n", 1)
@@ -636,6 +643,9 @@ func fpUnits(prop, tier string) []*Unit {
 			shapes = append(shapes, fpShape{name: "dir-attr", method: m, dirAttr: true}, fpShape{name: "with-broken-task", method: m, broken: true},
 				fpShape{name: "dir-attr-dynvar-precondition-status", method: m, dirAttr: true, dirSh: true}, fpShape{name: "deferred-command", method: m, deferCmd: true}, fpShape{name: "label-depends-on-call-variable", method: m, condLabel: true},
 				fpShape{name: "calls-a-task-that-fails-under-dry", method: m, guardCall: true})
+			if m == "checksum" {
+				shapes = append(shapes, fpShape{name: "silent-task", method: m, silent: "task", generates: true}, fpShape{name: "silent-taskfile", method: m, silent: "taskfile", generates: true})
+			}
 		} else {
 			shapes = append(shapes, fpShape{name: "dep", method: m, dep: true}, fpShape{name: "two-generates", method: m, generates: true, gen2: true},
 				fpShape{name: "twin-names-underscore-dash", method: m, twin: true}, fpShape{name: "sources-match-nothing", method: m, noMatch: true})
